@@ -67,3 +67,47 @@ Definition heap_answer (entries : list (Z + payload)) (e : hexpr) : sexp :=
                                     | HRef l => atomZ (Z.of_nat (rc_of σ' l))
                                     | HInt _ => atomZ (-1)
                                     end) ρ)].
+
+(** the operation-level machine of C05_any_interleaving: [n] context buffers (cell i holds
+    [i]), then a sequence of steps; the answer lists every cell that still has an owner *)
+Definition op_of_sexp (x : sexp) : option op :=
+  match x with
+  | SList (Atom t :: args) =>
+      if t =? "clone" then match args with [l] => option_map (fun n => OClone (N.to_nat n)) (sexp_N l) | _ => None end
+      else if t =? "drop" then match args with [l] => option_map (fun n => ODrop (N.to_nat n)) (sexp_N l) | _ => None end
+      else if t =? "alloc" then option_map (fun zs => OAlloc (PList zs)) (opt_map_list sexp_Z args)
+      else if t =? "append" then
+        match args with
+        | l :: zs => match sexp_N l, opt_map_list sexp_Z zs with
+                     | Some n, Some zs' => Some (OAppend (N.to_nat n) (PList zs'))
+                     | _, _ => None
+                     end
+        | [] => None
+        end
+      else None
+  | _ => None
+  end.
+
+Fixpoint init_cells (n : nat) (i : Z) : store :=
+  match n with
+  | O => []
+  | S n' => {| rc := 1; pl := PList [i] |} :: init_cells n' (i + 1)%Z
+  end.
+
+Definition arc_answer (n : nat) (ops : list op) : sexp :=
+  let pinned := seq 0 n in
+  match steps pinned {| st := init_cells n 0%Z; hs := pinned |} ops with
+  | None => Atom "(arc-stuck)"
+  | Some c =>
+      tagged "arc"
+        ((fix go (σ : store) (i : Z) : list sexp :=
+            match σ with
+            | [] => []
+            | cl :: σ' =>
+                List.app
+                  (if Nat.eqb (rc cl) 0 then nil
+                   else cons (tagged "cell" (cons (atomZ i) (cons (atomZ (Z.of_nat (rc cl)))
+                                (cons (tagged "list" (match pl cl with PList l => map atomZ l | PStr _ => nil end)) nil)))) nil)
+                  (go σ' (i + 1)%Z)
+            end) (st c) 0%Z)
+  end.
